@@ -50,7 +50,7 @@ def run_one(item, budget, props=None):
             return {**item, "result": "patch-does-not-apply", "detail": (r.stdout + r.stderr)[-300:]}
         results = {}
         for prop in props or [item["property"]]:
-            env = dict(os.environ, VERIF_REPO=copy, VERIF_BUDGET_S=str(budget), VERIF_EVIDENCE_DIR=os.path.join(out_root, "evidence"),
+            env = dict(os.environ, VERIF_REPO=copy, VERIF_BUDGET_S=str(budget), VERIF_FAIL_FAST="1", VERIF_EVIDENCE_DIR=os.path.join(out_root, "evidence"),
                        VERIF_REPLAY_ROOT=os.path.join(out_root, "replays"))
             t0 = time.time()
             r = subprocess.run([sys.executable, "-m", "dsim", "check", prop, "--tier", "quick"], cwd=VERIF, env=env, capture_output=True, text=True)
